@@ -20,6 +20,9 @@ def scenarios(ctx: Ctx) -> list:
 
 
 def run(ctx: Ctx) -> None:
+    # the lifetime predicates the contracts rest on, at every boundary (spec/Ttl.tla, Oracle_Ttl.tla)
+    from props import ttloracle
+    ttloracle.run(ctx, 'C05')
     from props import cachemodel as cm
     model_check_cache(ctx)
     mscs, by_id = cm.scenarios(ctx, ctx.pick(400, 6000), 'c05')
